@@ -275,6 +275,30 @@ pub fn c10_traits(c: &mut Ctx, x: W, y: W, n: i32) {
     let z = (y.0 * 0.75, 0.0);
     let r = g!(tx * ty + t(z));
     cmp(c, "trait/mul_add", "Float", &ins, &r, g!(<TwoFloat as Float>::mul_add(tx, ty, t(z))));
+    // the same identity with special addends (every zero pattern, +-1, the factors themselves, the
+    // negated product) and with factor pairs whose product underflows to a signed zero / overflows
+    let tiny = |v: W, neg_lo: bool| -> W {
+        let h = v.0 * pow2(-600);
+        if h.is_finite() { (h, if neg_lo { -0.0 } else { 0.0 }) } else { v }
+    };
+    let huge = |v: W| -> W {
+        let h = v.0 * pow2(520);
+        if h.is_finite() && h != 0.0 { (h, 0.0) } else { v }
+    };
+    let prod = g!(tx * ty).ok();
+    let mut zs: Vec<W> = vec![(0.0, 0.0), (-0.0, 0.0), (0.0, -0.0), (-0.0, -0.0), (1.0, 0.0), (-1.0, 0.0), x, y, (-x.0, -x.1)];
+    if let Some(p) = prod {
+        zs.push((-p.0, -p.1));
+    }
+    for (fx, fy) in [(x, y), (tiny(x, false), tiny(y, false)), (tiny(x, true), tiny(y, false)), (tiny(x, true), tiny(y, true)), (huge(x), huge(y)), (huge(x), tiny(y, true))] {
+        let (ta, tb) = (t(fx), t(fy));
+        for &z in &zs {
+            let tz = t(z);
+            let ins3 = [hx(fx.0), hx(fx.1), hx(fy.0), hx(fy.1), hx(z.0), hx(z.1)];
+            let r = g!(ta * tb + tz);
+            cmp(c, "trait/mul_add", "Float (special addend)", &ins3, &r, g!(<TwoFloat as Float>::mul_add(ta, tb, tz)));
+        }
+    }
     // Zero / One
     let zr: R = Ok((0.0, 0.0));
     cmp(c, "trait/zero", "Zero::zero", &ins, &zr, g!(<TwoFloat as Zero>::zero()));
